@@ -209,6 +209,10 @@ func PuttyPPK(info Info, data []byte) (Info, error) {
 func RPMFile(info Info, data []byte) (Info, error) {
 	info.Description = "RPM"
 
+	if err := rpmCheckIndex(data); err != nil {
+		return info, err
+	}
+
 	r, err := rpm.ReadPackageFile(bytes.NewReader(data))
 	if err != nil {
 		return info, fmt.Errorf("rpm.ReadPackageLead: %w", err)
